@@ -116,6 +116,19 @@ package utils
 //@   ensures keeps_earlier: forall(i, 0, old(len(r.rnges)), r.rnges[i] == old(r.rnges[i]) && r.rnges[i].min == old(r.rnges[i].min) && r.rnges[i].max == old(r.rnges[i].max))
 //@   ensures still_ok: srngesOK(r)
 
+// the integer conversions build the type's own range, add the schema ranges and hand the text to IsWithinAnyRangeString
+//@ func convertInt
+//@   props C20 C12
+//@   requires srngesOK(ranges)
+//@   requires schema_ranges_are_set: forall(i, 0, len(minMaxs), minMaxs[i] != nil)
+//@   loop 0 invariant srngesOK(ranges)
+
+//@ func convertUint
+//@   props C20 C12
+//@   requires ranges == nil || urngesOK(ranges)
+//@   requires schema_ranges_are_set: forall(i, 0, len(minMaxs), minMaxs[i] != nil)
+//@   loop 0 invariant urngesOK(ranges)
+
 // ---------------------------------------------------------------------------
 // C11: path <-> element sequence. Key values of one path element are laid out in the order of the sorted key names.
 
@@ -161,7 +174,7 @@ package utils
 //@   NormalizedAbsPath relativeToAbsPath hasRelativePathElem CopyPath PathsEqual peEqual
 //@   ParseDecimal64 ConvertSdcpbNumberToInt64 ConvertSdcpbNumberToUint64 convertStringToTv ConvertJsonValueToTv
 //@   ConvertString ConvertBoolean ConvertBinary ConvertDecimal64 ConvertEnumeration ConvertIdentityRef ConvertLeafRef ConvertUnion
-//@   ConvertInt8 ConvertInt16 ConvertInt32 ConvertInt64 ConvertUint8 ConvertUint16 ConvertUint32 ConvertUint64 convertInt convertUint
+//@   ConvertInt8 ConvertInt16 ConvertInt32 ConvertInt64 ConvertUint8 ConvertUint16 ConvertUint32 ConvertUint64
 //@   Convert ConvertInstanceIdentifier TypedValueToYANGType ConvertTypedValueToYANGType ConvertToTypedValue
 //@   GetJsonValue GetSchemaValue GetValue FromGNMITypedValue FromGNMIPath ToGNMIPath ToSchemaNotification
 //@   TypedValueToXML AddXMLOperation GetNamespaceFromGetSchema GetSchemaElemModuleName DefaultValueExists DefaultValueRetrieve
